@@ -77,15 +77,18 @@ Inbound(c, ln) ==
      ELSE [rest |-> f.rest, acc |-> <<>>, st |-> k.st]          \* A2: nothing is delivered after an abort / loss
 
 \* outbound: every write effect decoded by the strict reference decoder
-WPkt(c, e) == LET a == e.c[1] IN
-              LET d == DecodeStrict(e.bytes, c.A[a].ver) IN IF IsBad(d) THEN [t |-> "malformed", why |-> d.why] ELSE d
+\* (decoded with the 3.1 flag rules, which also admit DUP on PUBREL / SUBSCRIBE / UNSUBSCRIBE: whether the DUP bit fits the
+\* protocol level in force is judged by C08 and C18, the other automata only need to know which packet it is)
+WPkt(c, e) == LET d == DecodeStrict(e.bytes, 3) IN IF IsBad(d) THEN [t |-> "malformed", why |-> d.why] ELSE d
 Writes(c, ln) == LET w == Fx(ln, "write") IN [i \in 1..Len(w) |-> [a |-> w[i].c[1], g |-> w[i].c[2], p |-> WPkt(c, w[i]), bytes |-> w[i].bytes]]
 
 \* the Deferred table: one entry per "ret" effect, in handle order
 NewD(c, ln) ==
   LET rets == Fx(ln, "ret") IN
-  [i \in 1..Len(rets) |-> [d |-> rets[i].d, mid |-> rets[i].mid, op |-> ln.stim.op, a |-> ln.stim.a, g |-> c.A[ln.stim.a].g,
-                           st |-> "pending", val |-> [ty |-> "none"], exc |-> "", n |-> ln.n, t |-> ln.t, stim |-> ln.stim, fn |-> 0]]
+  \* (a stimulus interrupted by a re-entrant call continues on a line with op "cont" that carries the original stimulus)
+  LET st0 == IF ln.stim.op = "cont" THEN ln.stim.orig ELSE ln.stim IN
+  [i \in 1..Len(rets) |-> [d |-> rets[i].d, mid |-> rets[i].mid, op |-> st0.op, a |-> st0.a, g |-> c.A[st0.a].g,
+                           st |-> "pending", val |-> [ty |-> "none"], exc |-> "", n |-> ln.n, t |-> ln.t, stim |-> st0, fn |-> 0]]
 ApplyFires(D, ln) ==
   LET fs == Fx(ln, "fire") IN
   [d \in 1..Len(D) |->
@@ -124,7 +127,11 @@ CoreStep(c, ln) ==
                 [] s.op = "connect" ->
                      \* accepted iff a Deferred was returned and is still pending after the call
                      LET rets == Fx(ln, "ret") IN
-                     IF rets # <<>> /\ D1[rets[1].d].st = "pending" /\ k.st = "idle"
+                     IF k.st = "idle" /\ "part" \in DOMAIN s /\ HasFx(ln, "arm")
+                     THEN \* interrupted by a re-entrant call before it returned: accepted (the CONNACK timer is armed), Deferred not yet known
+                          [k EXCEPT !.st = "connecting", !.clean = s.clean, !.ver = IF s.ver \in {3, 4} THEN s.ver ELSE 4,
+                                    !.ka = IntOr(s.ka, 0), !.cd = 0, !.cat = ln.t, !.tp = tpAfter(a, @)]
+                     ELSE IF rets # <<>> /\ D1[rets[1].d].st = "pending" /\ k.st = "idle"
                      THEN [k EXCEPT !.st = "connecting", !.clean = s.clean, !.ver = IF s.ver \in {3, 4} THEN s.ver ELSE 4,
                                     !.ka = IntOr(s.ka, 0), !.cd = rets[1].d, !.cat = ln.t, !.tp = tpAfter(a, @)]
                      ELSE [k EXCEPT !.tp = tpAfter(a, @)]
@@ -133,6 +140,8 @@ CoreStep(c, ln) ==
                      ELSE [k EXCEPT !.tp = tpAfter(a, @)]
                 [] s.op = "recv" -> LET inb == Inbound(c, ln) IN [k EXCEPT !.st = inb.st, !.rbuf = inb.rest, !.tp = tpAfter(a, @)]
                 [] s.op = "lost" -> [k EXCEPT !.st = "idle", !.tp = "lost"]
+                [] s.op = "cont" /\ s.of = "connect" /\ k.st = "connecting" /\ k.cd = 0 /\ Fx(ln, "ret") # <<>>
+                                 -> [k EXCEPT !.cd = Fx(ln, "ret")[1].d, !.tp = tpAfter(a, @)]
                 [] OTHER -> [k EXCEPT !.tp = tpAfter(a, @)]]
   IN [A |-> A1, D |-> D1, t |-> ln.t]
 
@@ -141,6 +150,15 @@ HarnessOK(c, ln) ==
   LET rets == Fx(ln, "ret")  fs == Fx(ln, "fire") IN
   /\ \A i \in 1..Len(rets) : rets[i].d = Len(c.D) + i
   /\ \A i \in 1..Len(fs) : fs[i].d \in 1..(Len(c.D) + Len(rets))
+
+\* stage 3: segments of a stimulus interrupted by re-entrant API calls
+Mid(ln)    == "part" \in DOMAIN ln.stim                       \* the stimulus continues after this line
+IsContL(ln) == ln.stim.op = "cont"
+Nested(ln) == "nested" \in DOMAIN ln.stim
+\* the line completes the stimulus op (unsplit, or its last continuation)
+Ends(ln, op) == ~Mid(ln) /\ (ln.stim.op = op \/ (IsContL(ln) /\ ln.stim.of = op))
+Reactive(t) == "meta" \in DOMAIN T[Idx[t][2]] /\ "reactive" \in DOMAIN T[Idx[t][2]].meta
+ReactProps == {"C04", "C05", "C07", "C10", "C11", "C13", "C14", "C16", "C17", "C18"}
 
 StName == [none |-> "none", idle |-> "IdleState", connecting |-> "ConnectingState", connected |-> "ConnectedState", closed |-> "BaseState"]
 
@@ -164,7 +182,10 @@ C18_Write(r, c, ln, i) ==
   ELSE IF x.disc = 1 THEN Bad2(r.gh, "C18.write_after_disconnect", <<a, e.bytes[1]>>)
   ELSE
   LET f == Frame(x.wb \o e.bytes)
-      ver0 == IF x.npk = 0 /\ f.pkts # <<>> /\ ~IsBad(DecodeStrict(f.pkts[1], 3)) /\ DecodeStrict(f.pkts[1], 3).t = "CONNECT" THEN 3 ELSE x.ver
+      \* the protocol level of the connection is the one its CONNECT announces
+      \* (a second accepted connect() on the same transport, outside A6, announces the level anew)
+      ver0 == IF f.pkts # <<>> /\ ~IsBad(DecodeStrict(f.pkts[1], 3)) /\ DecodeStrict(f.pkts[1], 3).t = "CONNECT"
+              THEN DecodeStrict(f.pkts[1], 3).ver ELSE x.ver
       ps == [j \in 1..Len(f.pkts) |-> DecodeStrict(f.pkts[j], IF ver0 = 3 THEN 3 ELSE 4)]
       isConn(j) == ~IsBad(ps[j]) /\ ps[j].t = "CONNECT"
       isDisc(j) == ~IsBad(ps[j]) /\ ps[j].t = "DISCONNECT"
@@ -219,7 +240,7 @@ C14_Step(c, c2, g, ln) ==
     IN FirstBad(g, << <<~allUnhandled \/ ln.fx = <<>>, "C14.unexpected_packet_had_effect", <<IF inb # <<>> THEN <<inb[1].p.t, inb[1].st>> ELSE <<>>, ln.profile>> >>,
                       <<c2.A[s.a].st \notin {"idle", "connecting", "connected"} \/ c.A[s.a].tp \notin {"open"} \/ StName[c2.A[s.a].st] = ln.post.state[s.a],
                         "C14.state_differs", <<"recv", c2.A[s.a].st, ln.post.state[s.a]>> >> >>, IF allUnhandled THEN 1 ELSE 0)
-  ELSE IF s.op = "lost" THEN
+  ELSE IF Ends(ln, "lost") THEN
     FirstBad(g, << <<ln.post.state[s.a] = "IdleState", "C14.state_differs", <<"lost", ln.post.state[s.a]>> >> >>, 0)
   ELSE OKr(g)
 C14_End(c, g) == OKr(g)
@@ -258,7 +279,7 @@ C04_Step(c, c2, g, ln) ==
                                                     /\ \E i \in 1..Len(ln.fx) : ln.fx[i].k = "close" /\ ln.fx[i].how = "abort" /\ ln.fx[i].c[1] = d.a /\ ln.fx[i].c[2] = d.g
                [] OTHER -> FALSE
       connectOK ==
-        IF s.op = "connect" /\ c.A[s.a].st = "idle" /\ c.A[s.a].tp = "open" /\ ConnectCheck(ConnArgs(s)) = "ok"
+        IF s.op = "connect" /\ ~Mid(ln) /\ c.A[s.a].st = "idle" /\ c.A[s.a].tp = "open" /\ ConnectCheck(ConnArgs(s)) = "ok"
         THEN LET w == Writes(c2, ln)  arms == Fx(ln, "arm")  rets == Fx(ln, "ret") IN
              /\ Len(w) = 1 /\ w[1].a = s.a /\ w[1].g = c.A[s.a].g /\ w[1].p = PktConnect(ConnArgs(s))
              /\ Len(arms) = 1 /\ arms[1].delay = ConnackTicks(s.ka.v)
@@ -272,10 +293,10 @@ C04_Step(c, c2, g, ln) ==
   IN FirstBad(g1,
        << <<connectOK, "C04.connect_effects", <<s.op>> >>,
           <<\A i \in 1..Len(cf) : c.D[cf[i].d].st = "pending", "C04.connect_deferred_fired_twice", <<>> >>,
-          <<\A i \in 1..Len(cf) : justified(cf[i]), "C04.connect_outcome_unjustified", <<s.op, IF cf # <<>> THEN cf[1] ELSE <<>> >> >>,
-          <<connackOK, "C04.connack_without_outcome", <<>> >>,
+          <<IsContL(ln) \/ Mid(ln) \/ \A i \in 1..Len(cf) : justified(cf[i]), "C04.connect_outcome_unjustified", <<s.op, IF cf # <<>> THEN cf[1] ELSE <<>> >> >>,
+          <<connackOK \/ Mid(ln), "C04.connack_without_outcome", <<>> >>,
           <<~staleTimeout \/ ln.fx = <<>>, "C04.timeout_acts_after_outcome", <<ShortFx(ln)>> >>,
-          <<s.op # "lost" \/ ln.post.state[s.a] = "IdleState", "C04.not_idle_after_loss", <<>> >>,
+          <<~Ends(ln, "lost") \/ ln.post.state[s.a] = "IdleState", "C04.not_idle_after_loss", <<>> >>,
           <<\A i \in 1..Len(cbs) : s.op = "fire" /\ <<cbs[i].a, cbs[i].g, cbs[i].reason>> \in g.exp \ g.done, "C04.unexpected_notification", <<s.op>> >>,
           <<\A i, j \in 1..Len(cbs) : i # j => <<cbs[i].a, cbs[i].g>> # <<cbs[j].a, cbs[j].g>>, "C04.notified_twice", <<>> >> >>,
        Len(cf) + Len(cbs) + (IF s.op = "connect" THEN 1 ELSE 0))
@@ -397,14 +418,16 @@ C10_Step(c, c2, g, ln) ==
       r == C10_Fold([x |-> x1, err |-> "", info |-> <<>>, hit |-> 0], c, c2, a, Writes(c2, ln), 1)
       \* a clean session discards what was held back: at the loss of a clean connection, at an accepted clean connect()
       discard == (s.op = "lost" /\ k.clean = 1) \/ (s.op = "connect" /\ c2.A[a].st = "connecting" /\ k.st = "idle" /\ s.clean = 1)
-      x2 == IF discard THEN [r.x EXCEPT !.acc = [i \in 1..Len(@) |-> IF @[i].tx THEN @[i] ELSE [@[i] EXCEPT !.drop = TRUE]]] ELSE r.x
+      x2 == IF discard THEN [r.x EXCEPT !.acc = [i \in 1..Len(@) |-> IF @[i].tx THEN @[i] ELSE [@[i] EXCEPT !.drop = TRUE]],
+                                        !.noack = IF Mid(ln) THEN {} ELSE @]     \* (interrupted purge: the errbacks are still to come)
+            ELSE r.x
       waiting == C10_HeadPos(c2, x2.acc) # 0
       outstanding == \E i \in 1..Len(x2.acc) : x2.acc[i].qos > 0 /\ x2.acc[i].tx /\ Pending(c2, x2.acc[i].d)
       up == c2.A[a].st = "connected" /\ c2.A[a].tp = "open"
   IN IF r.err # "" THEN Bad2(g, r.err, r.info)
      ELSE FirstBad([g EXCEPT ![a] = x2],
             << <<~valid \/ d.st # "fail", "C10.publish_refused", <<a, d.st, IF d.st = "fail" THEN d.exc ELSE "">> >>,
-               <<~(up /\ waiting) \/ outstanding, "C10.stranded", <<a, s.op>> >> >>,
+               <<~(up /\ waiting) \/ outstanding \/ Mid(ln) \/ Nested(ln), "C10.stranded", <<a, s.op>> >> >>,
             r.hit + (IF up /\ waiting THEN 1 ELSE 0))
 C10_End(c, g) == OKr(g)
 
@@ -696,7 +719,7 @@ C07_Step(c, c2, g, ln) ==
           <<~(validArgs /\ allowed /\ npend >= k.window) \/ (out = "MQTTWindowError" /\ NoEffect(ln)), "C07.window_not_enforced", <<s.op, npend, k.window, out>> >>,
           <<~(validArgs /\ allowed /\ npend < k.window) \/ out # "MQTTWindowError", "C07.window_error_below_window", <<s.op, npend, k.window>> >>,
           <<\A i \in 1..Len(subFires) : c.D[subFires[i].d].st = "pending", "C07.fired_twice", <<>> >>,
-          <<\A i \in 1..Len(okFires) : okJust(okFires[i]), "C07.success_without_matching_ack", <<IF okFires # <<>> THEN okFires[1] ELSE <<>> >> >>,
+          <<IsContL(ln) \/ \A i \in 1..Len(okFires) : okJust(okFires[i]), "C07.success_without_matching_ack", <<IF okFires # <<>> THEN okFires[1] ELSE <<>> >> >>,
           <<~foreignOnly \/ ln.fx = <<>>, "C07.foreign_ack_had_effect", <<>> >>,
           <<~resumeLine \/ \A h \in owedHere : resent(h), "C07.request_neither_failed_nor_resent", <<owedHere>> >> >>,
        (IF isCall THEN 1 ELSE 0) + Len(subFires) + (IF resumeLine /\ owedHere # {} THEN 1 ELSE 0))
@@ -706,21 +729,27 @@ C07_End(c, g) == OKr(g)
 -----------------------------------------------------------------------------
 (* C11  Clean session: connection loss fails everything pending and nothing carries over *)
 \* ghost per address: prevClean = the connection that ended last had been opened clean
-C11_0 == [a \in Addrs |-> [prevClean |-> FALSE]]
+C11_0 == [a \in Addrs |-> [prevClean |-> FALSE, snap |-> {}, reason |-> "", n0 |-> 0]]
 C11_Step(c, c2, g, ln) ==
   LET s == ln.stim  fires == Fx(ln, "fire") IN
-  IF s.op = "lost" THEN
-    LET k == c.A[s.a]
-        opened == k.cd # 0
-        pend == {h \in 1..Len(c.D) : IsReq(c.D[h]) /\ c.D[h].a = s.a /\ c.D[h].st = "pending"}
-        failedOnce(h) == Count(fires, LAMBDA e : e.d = h) = 1 /\ \E i \in 1..Len(fires) : fires[i].d = h /\ fires[i].ok = 0 /\ LogExc(fires[i]) = s.reason
-    IN FirstBad([g EXCEPT ![s.a].prevClean = opened /\ k.clean = 1],
-         << <<~(opened /\ k.clean = 1) \/ \A h \in pend : failedOnce(h), "C11.pending_not_failed_with_reason",
-               <<{<<c.D[h].op, c.D[h].mid>> : h \in {x \in pend : ~failedOnce(x)}}>> >> >>, IF opened /\ k.clean = 1 THEN 1 + Cardinality(pend) ELSE 0)
+  IF s.op = "lost" \/ (IsContL(ln) /\ s.of = "lost") THEN
+    LET first == s.op = "lost"
+        k == c.A[s.a]
+        opened == IF first THEN k.cd # 0 /\ k.clean = 1 ELSE g[s.a].prevClean
+        \* the requests pending before the loss was reported (remembered over the segments of an interrupted stimulus)
+        pend == IF first THEN {h \in 1..Len(c.D) : IsReq(c.D[h]) /\ c.D[h].a = s.a /\ c.D[h].st = "pending"} ELSE g[s.a].snap
+        reason == IF first THEN s.reason ELSE g[s.a].reason
+        n0 == IF first THEN ln.n ELSE g[s.a].n0
+        failedOnce(h) == c2.D[h].st = "fail" /\ c2.D[h].exc = reason /\ c2.D[h].fn >= n0
+    IN FirstBad([g EXCEPT ![s.a] = [prevClean |-> opened, snap |-> pend, reason |-> reason, n0 |-> n0]],
+         << <<~(opened /\ ~Mid(ln)) \/ \A h \in pend : failedOnce(h), "C11.pending_not_failed_with_reason",
+               <<{<<c.D[h].op, c.D[h].mid>> : h \in {x \in pend : ~failedOnce(x)}}>> >>,
+            <<\A i \in 1..Len(fires) : fires[i].d > Len(c.D) \/ c.D[fires[i].d].st = "pending", "C11.failed_twice", <<>> >> >>,
+         IF opened /\ ~Mid(ln) THEN 1 + Cardinality(pend) ELSE 0)
   ELSE
     \* on the connection that follows a clean one every request packet belongs to a request accepted on it
     LET ws == WritesAt(c, c2, ln)
-        carried(w) == g[w.a].prevClean /\
+        carried(w) == g[w.a].prevClean /\ w.g > 1 /\ c.A[w.a].tp # "lost" /\
                         \/ (w.cls # "" /\ w.d # 0 /\ c2.D[w.d].g < w.g)
                         \/ (w.cls # "" /\ w.d = 0)
                         \/ (w.p.t = "PUBLISH" /\ w.p.qos = 0 /\
@@ -857,7 +886,7 @@ C16_Step(c, c2, g, ln) ==
           <<~isRecv \/ \A i \in 1..Len(closes) : closes[i].how = "abort", "C16.reaction_other_than_abort", <<>> >>,
           <<~isRecv \/ \A i \in 1..Len(cbs) : CbArgs(cbs[i]) \in seen2, "C16.unjustified_delivery", <<IF cbs # <<>> THEN cbs[1].topic ELSE <<>> >> >>,
           <<~isRecv \/ \A i \in 1..Len(oks) : okJust(oks[i]), "C16.unjustified_success", <<IF oks # <<>> THEN c.D[oks[1].d].op ELSE "">> >>,
-          <<~(s.op = "lost" /\ k.clean = 1 /\ k.cd # 0 /\ k.tp = "aborted") \/ leftHanging = {}, "C16.request_left_hanging_after_abort", <<leftHanging>> >> >>,
+          <<~(s.op = "lost" /\ ~Mid(ln) /\ k.clean = 1 /\ k.cd # 0 /\ k.tp = "aborted") \/ leftHanging = {}, "C16.request_left_hanging_after_abort", <<leftHanging>> >> >>,
        IF isRecv THEN Len(inb) - Len(wf) + (IF \E i \in 1..Len(wf) : ~Handles(wf[i].p.t, wf[i].st, ln) THEN 1 ELSE 0) ELSE 0)
 C16_End(c, g) == OKr(g)
 
@@ -1047,7 +1076,10 @@ PropEnd(c, g) ==
 MInit == /\ tid \in 1..Len(Idx) /\ l = Idx[tid][1] /\ verdict = "run" /\ core = Core0 /\ gh = [g |-> Gh0, hits |-> 0]
 MNext ==
   /\ verdict = "run"
-  /\ IF HasLine THEN
+  /\ IF Reactive(tid) /\ Prop \notin ReactProps THEN
+       \* re-entrant histories are judged only by the automata whose clauses are written for interrupted stimuli
+       /\ verdict' = "accept" /\ PrintT(<<"ACCEPT", tid, 0, 0>>) /\ UNCHANGED <<tid, l, core, gh>>
+     ELSE IF HasLine THEN
        LET ln == Line IN
        IF ~HarnessOK(core, ln)
        THEN /\ verdict' = "reject" /\ PrintT(<<"REJECT", tid, ln.n, "HARNESS.inconsistent_handles", <<>>>>) /\ UNCHANGED <<tid, l, core, gh>>
